@@ -206,6 +206,19 @@ def run(case):
                             {ckey: [list(p2)], "subpath_constraints_coverage_length": covl, "length_attr": "length"},
                             {ckey: [[[p2[0] + "|in", p2[0] + "|out"], [p2[0] + "|out", p2[1] + "|in"], [p2[1] + "|in", p2[1] + "|out"]]],
                              "subpath_constraints_coverage_length": covl, "length_attr": "length", "_node_lengths": nl})
+                    # one node of the constraint WITHOUT the length attribute (documented: counts with length 1): the expansion says 1 explicitly.
+                    # Lengths 3 elsewhere, so that 'absent' read as 0 or as the neighbours' value moves the coverage threshold.
+                    for miss in p2:
+                        nl3 = {v: 3 for v in V if v != miss}
+                        nl3_exp = dict(nl3)
+                        nl3_exp[miss] = 1
+                        for covl in (0.8, 1.0):
+                            for ign in ((), (miss,)):
+                                add(f"node_constraint,coverage_length={covl},no_length:{miss}" + (f",ignored:{miss}" if ign else ""), dict(use0, node_lengths=nl3),
+                                    dict({ckey: [list(p2)], "subpath_constraints_coverage_length": covl, "length_attr": "length"}, **({"elements_to_ignore": list(ign)} if ign else {})),
+                                    dict({ckey: [[[p2[0] + "|in", p2[0] + "|out"], [p2[0] + "|out", p2[1] + "|in"], [p2[1] + "|in", p2[1] + "|out"]]],
+                                          "subpath_constraints_coverage_length": covl, "length_attr": "length", "_node_lengths": nl3_exp},
+                                         **({"elements_to_ignore": [[miss + "|in", miss + "|out"]]} if ign else {})))
                     # unit node lengths, a two-arc constraint a->b->c given in edge form, its middle node ignored
                     n1 = {v: 1 for v in V}
                     two = [(a_, b_, c_) for (a_, b_) in A for (b2_, c_) in A if b2_ == b_ and c_ != a_][:1]
